@@ -157,8 +157,8 @@ Lemma rec_of_update_same w files l r n s la co :
 Proof. unfold rec_of; cbn [w_recs]. rewrite lookup_update_same. reflexivity. Qed.
 
 (** the step of a target in a normal (not dry, not crashed) run establishes freshness when it succeeds *)
-Lemma step_target_fresh c w l d vs w' v evs ran vis :
-  c_dry c = false -> c_crashed c = false ->
+Lemma step_target_fresh_g c w l d vs w' v evs ran vis :
+  c_dry c = false ->
   dep_visits vis (deps_of (w_proj w) d) = Some vs ->
   step_target c w l d (rec_of w l) vs = (w', v, evs, ran) ->
   v_res v = ROk ->
@@ -168,7 +168,7 @@ Lemma step_target_fresh c w l d vs w' v evs ran vis :
      exists prev, lookup dl (r_deps (rec_of w' l)) = Some prev /\ stamp_eqb prev (stamp_of vd) = true) /\
   utd_core w' d (rec_of w' l) = true.
 Proof.
-  intros Hdry Hcr Hvs. unfold step_target. rewrite Hdry, Hcr. cbn [andb].
+  intros Hdry Hvs. unfold step_target. rewrite Hdry.
   destruct (first_failure vs) as [[]|]; try (intros H; inversion H; subst; simpl; discriminate).
   destruct (negb (c_always c) && deps_up_to_date (rec_of w l) vs && up_to_date w d (rec_of w l) &&
             negb (r_rerun (rec_of w l) || is_always d)) eqn:Hcond.
@@ -192,18 +192,34 @@ Proof.
     { intros dl vd Hin. apply lookup_dep_data; [|exact Hin].
       intros d' v1 v2. apply (dep_visits_functional _ _ _ _ _ _ Hvs). }
     destruct d as [deps srcs gens env k alw|p].
-    + destruct (mem l (c_fail c)). { intros H; inversion H; subst; simpl; discriminate. }
+    + destruct (c_crashed c && negb (mem l (c_ran c))). { intros H; inversion H; subst; simpl; discriminate. }
+      destruct (mem l (c_fail c)).
+      { destruct (c_crashed c && negb (mem l (c_recorded c))); intros H; inversion H; subst; simpl; discriminate. }
+      destruct (c_crashed c && negb (mem l (c_recorded c))). { intros H; inversion H; subst; simpl; discriminate. }
       intros H; inversion H; subst. intros _.
       unfold rstamp. rewrite rec_of_update_same. cbn [r_data r_run r_rerun r_deps stamp_of v_data v_run].
       split; [reflexivity|split; [reflexivity|split]].
       * intros dl vd Hin. exists (stamp_of vd). split; [apply Hdd; exact Hin|apply stamp_eqb_refl].
       * unfold utd_core. cbn [r_data]. rewrite N.eqb_refl. cbn [andb]. apply gens_exist_write.
-    + intros H; inversion H; subst. intros _.
+    + destruct (c_crashed c && negb (mem l (c_recorded c))). { intros H; inversion H; subst; simpl; discriminate. }
+      intros H; inversion H; subst. intros _.
       unfold rstamp, set_rec. rewrite rec_of_update_same. cbn [r_data r_run r_rerun r_deps stamp_of v_data v_run].
       split; [reflexivity|split; [reflexivity|split]].
       * intros dl vd Hin. exists (stamp_of vd). split; [apply Hdd; exact Hin|apply stamp_eqb_refl].
       * unfold utd_core, file_sum. cbn [r_data w_files]. apply data_eqb_refl.
 Qed.
+
+Lemma step_target_fresh c w l d vs w' v evs ran vis :
+  c_dry c = false -> c_crashed c = false ->
+  dep_visits vis (deps_of (w_proj w) d) = Some vs ->
+  step_target c w l d (rec_of w l) vs = (w', v, evs, ran) ->
+  v_res v = ROk ->
+  stamp_of v = rstamp w' l /\
+  r_rerun (rec_of w' l) = false /\
+  (forall dl vd, In (dl, vd) vs ->
+     exists prev, lookup dl (r_deps (rec_of w' l)) = Some prev /\ stamp_eqb prev (stamp_of vd) = true) /\
+  utd_core w' d (rec_of w' l) = true.
+Proof. intros Hdry _. apply step_target_fresh_g; exact Hdry. Qed.
 
 (** ** the invariant of a normal run *)
 Definition finv (pr : project) (s : bstate) : Prop :=
@@ -260,11 +276,11 @@ Proof.
       rewrite Hg in Hvs. cbn [dep_visits] in Hvs. rewrite Hl0 in Hvs. discriminate.
 Qed.
 
-Lemma eval1_finv c pr s l0 :
-  c_dry c = false -> c_crashed c = false -> link_ok pr = true ->
+Lemma eval1_finv_g c pr s l0 :
+  c_dry c = false -> link_ok pr = true ->
   finv pr s -> finv pr (eval1 c s l0).
 Proof.
-  intros Hdry Hcr Hlink [Hpr Hinv].
+  intros Hdry Hlink [Hpr Hinv].
   unfold eval1.
   destruct (lookup l0 (b_vis s)) as [v0|] eqn:Hv0; [split; assumption|].
   rewrite Hpr.
@@ -277,7 +293,7 @@ Proof.
     + rewrite lookup_update_same in Hl. inversion Hl; subst v0.
       exists d0. split; [exact Hd0|].
       rewrite <- Hpr in Hvs.
-      destruct (step_target_fresh c (b_w s) l0 d0 vs w' v evs ran (b_vis s) Hdry Hcr Hvs Hst Hok)
+      destruct (step_target_fresh_g c (b_w s) l0 d0 vs w' v evs ran (b_vis s) Hdry Hvs Hst Hok)
         as (H1 & H2 & H3 & H4).
       split; [exact H1|split; [exact H2|split; [|exact H4]]].
       exists vs. split; [|exact H3]. rewrite Hpr in Hvs.
@@ -295,13 +311,23 @@ Proof.
       rewrite dep_visits_update; [exact Hvs|exact Hv0|rewrite Hvs; discriminate].
 Qed.
 
+Lemma eval1_finv c pr s l0 :
+  c_dry c = false -> c_crashed c = false -> link_ok pr = true ->
+  finv pr s -> finv pr (eval1 c s l0).
+Proof. intros Hdry _. apply eval1_finv_g; exact Hdry. Qed.
+
+Lemma fold_finv_g c pr order s :
+  c_dry c = false -> link_ok pr = true ->
+  finv pr s -> finv pr (fold_left (eval1 c) order s).
+Proof.
+  intros Hdry Hlink. revert s; induction order as [|l order IH]; intros s H; simpl; [exact H|].
+  apply IH, eval1_finv_g; assumption.
+Qed.
+
 Lemma fold_finv c pr order s :
   c_dry c = false -> c_crashed c = false -> link_ok pr = true ->
   finv pr s -> finv pr (fold_left (eval1 c) order s).
-Proof.
-  intros Hdry Hcr Hlink. revert s; induction order as [|l order IH]; intros s H; simpl; [exact H|].
-  apply IH, eval1_finv; assumption.
-Qed.
+Proof. intros Hdry _. apply fold_finv_g; exact Hdry. Qed.
 
 (** ** the second run: everything is up to date *)
 Fixpoint topo_ok (pr : project) (seen : list label) (order : list label) : bool :=
